@@ -527,14 +527,23 @@ class AsciiRecordWriter(IORecord):
         self.data.append(self._intFormat.format(val))
         return val
 
+    def _formatFloat(self, val):
+        """Render a float into exactly the number of characters the reader consumes."""
+        text = self._floatFormat.format(val)
+        if len(text) > self._floatLength:
+            # a three-digit exponent takes the column of the separating blank
+            text = self._floatFormat.lstrip().format(val)
+        # inf and nan are shorter than a number
+        return text.rjust(self._floatLength)
+
     def rwFloat(self, val):
         self.numBytes += self._floatSize
-        self.data.append(self._floatFormat.format(val))
+        self.data.append(self._formatFloat(val))
         return val
 
     def rwDouble(self, val):
         self.numBytes += self._floatSize * 2
-        self.data.append(self._floatFormat.format(val))
+        self.data.append(self._formatFloat(val))
         return val
 
     def rwString(self, val, length):
